@@ -80,5 +80,11 @@ SR = ("headings and table cells are not re-flowed, so runs of spaces inside them
 for b in ("atx", "atx-closing", "setext1", "setext2", "table", "table-center", "heading-list"):
     known("C03", f"block[{b}]/relayout:space-runs", SR if b == "atx" else "same: " + b)
 
+# ---------------------------------------------------------------- known: C06
+known("C06", "separated-tags/atomic:words",
+      "adjacent tags get a temporary space for tokenizing (normalize_adjacent_tags) and denormalize_adjacent_tags removes every single space between a closing and an opening delimiter of the same "
+      "family in the wrapped result - also one the author wrote: reformat_text('a {% x %} {% y %} b') -> 'a {% x %}{% y %} b' (same for comments, variables). Not repaired: the inserted space "
+      "would have to be distinguishable from an authored one across the splitter, the wrapper and the joiner.")
+
 json.dump({"_comment": "Genuine defects of jlevy/flowmark found by these checks. status=known: recorded, not repaired (matched by (property, key); a key names an obligation and a narrowly described mechanism or skeleton, never a property alone). status=fixed: repaired by the named fix: commit in /repo; suppresses nothing.", "findings": F}, open("/verif/known_findings.json", "w"), indent=1)
 print(len(F), "entries")
